@@ -26,9 +26,14 @@ structure Facts where
   routesById : Bool
   delayStepsExact : Bool
   requeueFifo : Bool
+  /-- wave 7: an event addressed to a negative id reaches nobody (positional routing counts from the end) -/
+  negativeIdDropped : Bool := true
+  /-- wave 7: two models alive in one process have separate event queues -/
+  queuePerModel : Bool := true
 deriving DecidableEq, Repr
 
-def Facts.good (f : Facts) : Bool := f.routesById && f.delayStepsExact && f.requeueFifo
+def Facts.good (f : Facts) : Bool :=
+  f.routesById && f.delayStepsExact && f.requeueFifo && f.negativeIdDropped && f.queuePerModel
 
 /-! ### The distribution loop in closed form -/
 
@@ -2201,6 +2206,51 @@ theorem C11_witness_no_rounding : ((2.1 : Float) / 0.3 > 7.0) ∧ ((0.3 : Float)
 
 end FloatC05
 
+/-! ## Wave 7 — receiver ids that are not naturals; two models alive at once -/
+
+/-- lookup by id: a negative receiver id is nobody's -/
+theorem byIdInt_neg (as : List Agent) (i : Int) (h : i < 0) : byIdInt as i = none := by
+  unfold byIdInt; rw [if_neg (by omega)]
+
+/-- … and a non-negative one is found exactly when an agent has it -/
+theorem byIdInt_nonneg (as : List Agent) (n : Nat) : byIdInt as (n : Int) = if hasId as n then some n else none := by
+  simp [byIdInt]
+
+/-- kernel-checked witness of the positional mechanism: `agents[-1]` is the LAST agent, `agents[-2]` the one before -/
+theorem C11_witness_negative_index :
+    pyIndex (run State.init [.create 0, .create 0, .create 0]).agents (-1) = some 2 ∧
+    pyIndex (run State.init [.create 0, .create 0, .create 0]).agents (-2) = some 1 ∧
+    byIdInt (run State.init [.create 0, .create 0, .create 0]).agents (-1) = none := by decide
+
+/-- With per-model queues, interleaving the operations of two models changes nothing: each ends in the state of its
+own history, so `C11_full` holds for each. -/
+theorem twoS_isolated (ops : List (Bool × Op)) :
+    ∀ t : TwoS, (runTwoS true t ops).a = run t.a (opsForS true ops) ∧ (runTwoS true t ops).b = run t.b (opsForS false ops) := by
+  induction ops with
+  | nil => intro t; exact ⟨rfl, rfl⟩
+  | cons x rest ih =>
+    intro t
+    obtain ⟨w, o⟩ := x
+    cases w with
+    | true =>
+      have := ih (stepTwoS true t (true, o))
+      simpa [runTwoS, stepTwoS, opsForS, run] using this
+    | false =>
+      have := ih (stepTwoS true t (false, o))
+      simpa [runTwoS, stepTwoS, opsForS, run] using this
+
+theorem C11_two_models (ops : List (Bool × Op)) :
+    Clauses (runTwoS true ⟨State.init, State.init⟩ ops).a ∧ Clauses (runTwoS true ⟨State.init, State.init⟩ ops).b := by
+  obtain ⟨ha, hb⟩ := twoS_isolated ops ⟨State.init, State.init⟩
+  rw [ha, hb]
+  exact ⟨C11_full_proved _, C11_full_proved _⟩
+
+/-- Witness (kernel-checked): with one queue for both models, an event sent in model A is handled by an agent of
+model B — an event that was never sent in B. -/
+theorem C11_witness_shared_queue :
+    let t := runTwoS false ⟨State.init, State.init⟩ [(false, .create 0), (true, .send 0 0), (false, .step)]
+    t.b.log.map (fun h => (h.agent, h.msg.seq)) = [(0, 0)] ∧ t.b.sent = [] := by decide
+
 #print axioms C11_full_proved
 #print axioms C11_routing
 #print axioms C11_dropped_only_when_absent
@@ -2239,5 +2289,10 @@ end FloatC05
 #print axioms floatKeep_exact
 #print axioms stepBudget_double_arith
 #print axioms C11_witness_no_rounding
+#print axioms byIdInt_neg
+#print axioms C11_witness_negative_index
+#print axioms twoS_isolated
+#print axioms C11_two_models
+#print axioms C11_witness_shared_queue
 
 end Bptk.C11
